@@ -1,6 +1,7 @@
 """C13: radialrange / closest / farthest point return the global extremes of distance."""
 from __future__ import annotations
 import math
+import cmath
 from fractions import Fraction as Fr
 import numpy as np
 from ..tracejobs import *
@@ -273,11 +274,22 @@ def sample(ctx, budget=1.0, hint=None, broken=None):
     from .c05 import _rand_seg
     for it in range(int(ctx.n(60, 600) * budget)):
         n = r.randint(1, 5)
+        long_ = r.random() < 0.15
+        if long_:
+            n = r.randint(33, 45)        # long outlines (any shortcut that only switches on for many segments)
         cur = complex(r.uniform(-3, 3), r.uniform(-3, 3))
         segs = []
         for i in range(n):
-            segs.append(_rand_seg(spt, r, cur, r.choice([1.0, 3.0, 12.0]), r.choice(['line', 'line', 'quad', 'cubic'])))
+            if long_ and r.random() < 0.35:
+                # unevenly parametrised: both handles bunched at one end, the other end far away (point(0.5) is nowhere near the middle)
+                d_ = cmath.exp(1j * r.uniform(0, 6.28)) * r.choice([3.0, 12.0, 40.0])
+                e_ = r.choice([0, 1])
+                segs.append(P.CubicBezier(cur, cur + d_ * (0.001 if e_ == 0 else 0.998), cur + d_ * (0.002 if e_ == 0 else 0.999), cur + d_))
+            else:
+                segs.append(_rand_seg(spt, r, cur, r.choice([1.0, 3.0, 12.0]), r.choice(['line', 'line', 'quad', 'cubic'])))
             cur = segs[-1].end
+            if long_ and r.random() < 0.1:
+                cur = cur + complex(r.uniform(20, 60), r.uniform(-30, 30))       # a detached stroke far away
         if r.random() < 0.25:
             # a segment that is itself a closed loop (start == end): a teardrop cubic or an out-and-back quadratic
             k_ = r.randrange(len(segs) + 1)
